@@ -93,6 +93,8 @@ Section Fold.
 Variable cb : cb_oracle.
 Variable g : cfg.
 Hypothesis Hcb : wr_all_ok cb.
+Context {w : sg_world}.
+Notation sg_cin := (sg_cinw w).
 
 (* ---- a complete first line of a field ---- *)
 Lemma sg_header_line_start c d rd hdr prev rh t l : sg_start_ok l = true ->
@@ -270,6 +272,13 @@ Proof.
       * right. exact HB.
 Qed.
 
+End Fold.
+
+Section Fold0.
+Variable cb : cb_oracle.
+Variable g : cfg.
+Hypothesis Hcb : wr_all_ok cb.
+Notation sg_cin := (sg_cinw sg_w0).
 (* ---- a call that starts (or continues) in REQ_HEADERS; what follows the empty line is a parameter (Htail) ---- *)
 Variables m u pr : bytes.
 Variables bwt tailw : bytes.
@@ -279,18 +288,18 @@ Variable ext : connp -> bytes -> Prop.
 Hypothesis Htail : forall c c1 d rd1 rw' f, c_in_state c = REQ_HEADERS ->
   rq_state_fn cb g REQ_HEADERS c = rq_with_tx (tx_state_request_headers cb) c1 ->
   sg_cin c1 d rd1 [] None REQ_HEADERS (Some REQ_HEADERS) (Some H_REQUEST_HEADER_DATA) Tend -> skipn rd1 d ++ rw' = tailw ->
-  exists cF rc, rq_loop cb g (6 + f) false c = (cF, rc) /\ sg_post m u pr bwt (sg_fhlog Tend tailw) fin ext cF rw'.
+  exists cF rc, rq_loop cb g (6 + f) false c = (cF, rc) /\ sg_post m u pr bwt (sg_fhlog g Tend tailw) fin ext cF rw'.
 
 Lemma sg_fcall_hdrs c d rd p hdr t rw' f :
   sg_cin c d rd p hdr REQ_HEADERS (Some REQ_HEADERS) (Some H_REQUEST_HEADER_DATA) t ->
-  sg_fhlog Tend tailw hdr t p (skipn rd d ++ rw') ->
-  exists cF rc, rq_loop cb g (6 + f) false c = (cF, rc) /\ sg_post m u pr bwt (sg_fhlog Tend tailw) fin ext cF rw'.
+  sg_fhlog g Tend tailw hdr t p (skipn rd d ++ rw') ->
+  exists cF rc, rq_loop cb g (6 + f) false c = (cF, rc) /\ sg_post m u pr bwt (sg_fhlog g Tend tailw) fin ext cF rw'.
 Proof.
   intros H (pend & tl & rem & q & Hrel & Ok & Hnp & Hrun & Hpq & Hq & Hw & Hfit).
   assert (Es : c_in_state c = REQ_HEADERS) by apply (ci_state _ _ _ _ _ _ _ _ _ H).
   assert (Ef : rq_state_fn cb g REQ_HEADERS c = REQ_HEADERS_loop cb g (length d - rd) c).
   { cbn [rq_state_fn]. unfold REQ_HEADERS_fn. rewrite (ci_len _ _ _ _ _ _ _ _ _ H), (ci_read _ _ _ _ _ _ _ _ _ H). reflexivity. }
-  destruct (sg_fhdrs_loop d rw' Tend tailw rem c rd p q hdr t pend tl (length d - rd) H Hrel Ok Hnp Hrun Hpq Hq Hw Hfit (le_n _)) as [HA|HB].
+  destruct (sg_fhdrs_loop cb g d rw' Tend tailw rem c rd p q hdr t pend tl (length d - rd) H Hrel Ok Hnp Hrun Hpq Hq Hw Hfit (le_n _)) as [HA|HB].
   - destruct HA as (c' & p' & hdr' & t' & EA & HA1 & HA2 & HA3).
     assert (Lim : (length p' + length (sg_olist hdr') <= g_field_limit_hard g)%nat).
     { destruct HA2 as (pe & te & re & q' & Hr' & _ & _ & _ & Epq & _ & _ & Fit). pose proof (sg_ffit_next _ _ _ Fit) as L. rewrite <- Epq, app_length in L.
@@ -302,7 +311,7 @@ Proof.
   - destruct HB as (c' & rd1 & EB & HB1 & HB2). rewrite <- Ef in EB.
     apply (Htail c c' d rd1 rw' f Es EB HB1 HB2).
 Qed.
-End Fold.
+End Fold0.
 
 (* Stage 3: nothing follows the empty line *)
 Lemma sg_ftail0 cb g : wr_all_ok cb -> g_allow_space_uri g = false -> forall m u pr fs,
@@ -311,16 +320,16 @@ Lemma sg_ftail0 cb g : wr_all_ok cb -> g_allow_space_uri g = false -> forall m u
   wr_eqb m wr_str_connect = false -> forall bwt,
   forall c c1 d rd1 rw' f, c_in_state c = REQ_HEADERS ->
   rq_state_fn cb g REQ_HEADERS c = rq_with_tx (tx_state_request_headers cb) c1 ->
-  sg_cin c1 d rd1 [] None REQ_HEADERS (Some REQ_HEADERS) (Some H_REQUEST_HEADER_DATA) (wr_block_tx fs (sg_th0 g m u pr)) -> skipn rd1 d ++ rw' = [] ->
+  sg_cinw sg_w0 c1 d rd1 [] None REQ_HEADERS (Some REQ_HEADERS) (Some H_REQUEST_HEADER_DATA) (wr_block_tx fs (sg_th0 g 0 m u pr)) -> skipn rd1 d ++ rw' = [] ->
   exists cF rc, rq_loop cb g (6 + f) false c = (cF, rc) /\
-    sg_post m u pr bwt (sg_fhlog g (wr_block_tx fs (sg_th0 g m u pr)) []) (sg_fin g m u pr fs) (fun _ _ => False) cF rw'.
+    sg_post m u pr bwt (sg_fhlog g (wr_block_tx fs (sg_th0 g 0 m u pr)) []) (sg_fin g m u pr fs) (fun _ _ => False) cF rw'.
 Proof.
   intros Hcb Hsp m u pr fs Wl Wb Wnf Wc bwt c c1 d rd1 rw' f Es Ef H1 Hw.
   apply app_eq_nil in Hw. destruct Hw as [Hs Hrw].
   assert (Erd : rd1 = length d) by (pose proof (sg_skipn_nil _ _ Hs); pose proof (ci_rd _ _ _ _ _ _ _ _ _ H1); lia).
   rewrite Erd in H1.
-  destruct (sg_tail cb g Hcb Hsp m u pr fs Wl Wb Wnf Wc c c1 d (1 + f) Es Ef H1) as (cF & rc & E & T).
-  exists cF, rc. split; [exact E|]. right. split; [exact Hrw|exact T].
+  destruct (sg_tail cb g Hcb Hsp m u pr fs Wl Wb Wnf Wc c c1 d (1 + f) Es Ef H1) as (cF & rc & fl & E & T).
+  exists cF, rc. split; [exact E|]. right. split; [exact Hrw|]. exists fl. exact T.
 Qed.
 
 (* ================= the folded grammar ================= *)
@@ -417,9 +426,9 @@ Proof.
   intros Hsp Wr. destruct r as [m u p fs]. unfold wr_request_ok in Wr. cbn [wq_method wq_uri wq_protocol wq_fields] in Wr.
   apply andb_prop in Wr. destruct Wr as [Wr Wc]. apply andb_prop in Wr. destruct Wr as [Wr Wnf]. apply andb_prop in Wr. destruct Wr as [Wl Wb].
   apply negb_true_iff in Wnf. apply negb_true_iff in Wc.
-  unfold sg_tref, sg_tfin. cbn [wq_method wq_uri wq_protocol wq_fields].
-  set (th0 := sg_th0 g m u p). set (tb := wr_block_tx fs th0).
-  destruct (sg_th0_facts g Hsp m u p Wl) as (F & H1 & H2 & H3 & H4 & H5). fold th0 in F, H1, H2, H3, H4, H5.
+  unfold sg_tref, sg_tfin, sg_tpre. cbn [wq_method wq_uri wq_protocol wq_fields].
+  set (th0 := sg_th0 g 0 m u p). set (tb := wr_block_tx fs th0).
+  destruct (sg_th0_facts g Hsp 0 m u p Wl) as (F & H1 & H2 & H3 & H4 & H5). fold th0 in F, H1, H2, H3, H4, H5.
   pose proof (wr_keep_h_block fs th0) as K. fold tb in K. unfold wr_keep_h in K. destruct K as (K1 & K2 & K3 & K4 & K5 & K6 & K7 & K8 & K9 & K10).
   assert (HtF : t_request_headers tb = wr_table (map wr_field_nv fs)) by (apply wr_block_tx_table; [exact Wb|exact H1|exact H2]).
   destruct (sg_hdr_end_facts tb) as [KE _]. unfold wr_keep in KE. destruct KE as (E1 & E2 & E3 & E4 & E5 & E6 & E7 & _).
@@ -455,15 +464,15 @@ Proof.
   assert (Okf : forallb (fun fp => wr_field_ok (fst fp)) fps = true).
   { pose proof (sg_okf fs Wb) as O. rewrite <- Efs in O. rewrite forallb_forall in O. apply forallb_forall. intros fp Hin. apply O. apply in_map. exact Hin. }
   destruct (sg_block_flat_ok fps Okf Hfo) as (Fok & Fnp). fold flat in Fok, Fnp.
-  assert (Hstart : sg_fhlog g (wr_block_tx fs (sg_th0 g m u p)) [] None (sg_th0 g m u p) [] (sg_fwire flat ++ [CR; LF])).
-  { exists None, (sg_th0 g m u p), flat, (sg_fnext flat). split; [left; split; reflexivity|]. split; [exact Fok|]. split; [rewrite Fnp; discriminate|].
+  assert (Hstart : sg_fhlog g (wr_block_tx fs (sg_th0 g 0 m u p)) [] None (sg_th0 g 0 m u p) [] (sg_fwire flat ++ [CR; LF])).
+  { exists None, (sg_th0 g 0 m u p), flat, (sg_fnext flat). split; [left; split; reflexivity|]. split; [exact Fok|]. split; [rewrite Fnp; discriminate|].
     split; [unfold sg_lrun, flat; rewrite (sg_block_lrun fps _ Hfo), Efs; reflexivity|]. split; [reflexivity|]. split; [apply sg_fnext_ne|].
     split; [apply (sg_fwire_split [])|exact Hfit]. }
   destruct (sg_all_chunks cb g Hcb Hsp m u p Wl Hl0 (sg_fwire flat ++ [CR; LF]) _ (sg_fin g m u p fs) (fun _ _ => False) Hstart
               (fun c rw (F : False) => match F with end) (fun c rw x rw' (F : False) => match F with end)
               (sg_fcall_hdrs cb g Hcb m u p (sg_fwire flat ++ [CR; LF]) [] _ _ _ (sg_ftail0 cb g Hcb Hsp m u p fs Wl Wb Wnf Wc (sg_fwire flat ++ [CR; LF])))
               chunks Hall Hc) as (fl & T).
-  exists (sg_tfin g m u p fs fl). split; [exact T|]. unfold sg_tref. cbn [wq_method wq_uri wq_protocol wq_fields]. apply sg_mask_tfin.
+  exists (sg_tfin g 0 m u p fs fl). split; [exact T|]. unfold sg_tref. cbn [wq_method wq_uri wq_protocol wq_fields]. apply sg_mask_tfin.
 Qed.
 
 Theorem sg_request_fold_chunking_reported : forall cb g r (cuts : list (list bytes)) (chunks : list bytes),
